@@ -83,6 +83,8 @@ def run_check(pid, units, tier, seed, props_files=None, default_imports='', leve
         all_thms += u.theorems
     obligations = len(all_thms)
     failed_files = set(re.findall(r'File "\./(theories/[^"]+|gen/[^"]+)", line \d+, characters [\d-]+:\nError', makelog))
+    # a file whose compilation hit the per-file time cap (exit status 124 of `timeout`) counts as failed too
+    failed_files |= {f + '.v' for f in re.findall(r'\[Makefile\.coq:\d+: (theories/[^\]]+?|gen/[^\]]+?)\.vo\] Error 124', makelog)}
     fn_status = (index or {}).get('functions', {})
     unit_status = {}
     discharged = 0
